@@ -222,6 +222,24 @@ Proof.
   - apply good_same_boxes. reflexivity.
 Qed.
 
+Lemma rename_tree_good a b st : good st (rename_tree a b st).
+Proof.
+  unfold rename_tree. destruct (name_sub a), (name_sub b); try apply rename_box_good.
+  eapply good_trans; apply rename_box_good.
+Qed.
+
+Lemma adopt_one_good i rc dl mk st : good st (adopt_one i rc dl mk st).
+Proof.
+  unfold adopt_one. destruct (lookup i (boxes st)) as [b|] eqn:Hl; [|apply good_refl].
+  eapply good_replace; [exact Hl|apply box_step_add|apply box_ok_add].
+Qed.
+
+Lemma adopt_loop_good i ms : forall st, good st (adopt_loop i ms st).
+Proof.
+  induction ms as [|[[mk dl] rc] r IH]; intro st; cbn [adopt_loop]; [apply good_refl|].
+  eapply good_trans; [apply adopt_one_good|apply IH].
+Qed.
+
 Lemma boxes_drop_sel s st : boxes (drop_sel s st) = boxes st.
 Proof. reflexivity. Qed.
 
@@ -232,7 +250,7 @@ Lemma boxes_post_sync s h st : boxes (fst (post_sync s h st)) = boxes st.
 Proof.
   unfold post_sync. destruct (lookup s (sess st)) as [sl|]; [|reflexivity].
   assert (H : boxes (fst (match find_box st (s_name sl) with
-                          | Some (i, b) => if i =? s_bid sl then do_sync s sl b st else (st, PStale)
+                          | Some (i, b) => if i =? s_bid sl then do_sync s sl b st else (drop_sel s st, PBye)
                           | None => (drop_sel s st, PBye)
                           end)) = boxes st).
   { destruct (find_box st (s_name sl)) as [[i b]|]; [|reflexivity].
@@ -278,7 +296,7 @@ Proof. split; reflexivity. Qed.
 Lemma select_new_good s nm ro st : good st (fst (select_new s nm ro st)).
 Proof.
   unfold select_new. destruct (find_box st nm) as [[i b]|]; [|apply good_refl].
-  destruct ro; cbn [fst].
+  destruct (ro || box_ro st i); cbn [fst].
   - apply good_same_boxes. reflexivity.
   - eapply good_trans; [apply (map_msgs_good i clear_recent st clear_recent_keeps)|].
     apply good_same_boxes. reflexivity.
@@ -304,15 +322,24 @@ Proof.
     destruct (post_sync s None (create_box nm st)) as [st' p] eqn:E. cbn [fst].
     replace st' with (fst (post_sync s None (create_box nm st))) by (rewrite E; reflexivity).
     eapply good_trans; [apply create_box_good|]. apply good_same_boxes, boxes_post_sync.
+  - (* Delete *)
+    destruct (nm =? INBOX); [apply good_refl|].
+    destruct (lookup nm (names st)); [|apply good_refl].
+    destruct (post_sync s None (set_names (remove nm (names st)) st)) as [st' p] eqn:E. cbn [fst].
+    replace st' with (fst (post_sync s None (set_names (remove nm (names st)) st)))
+      by (rewrite E; reflexivity).
+    apply good_same_boxes. rewrite boxes_post_sync. reflexivity.
   - (* Rename *)
     destruct (b =? INBOX); [apply good_refl|].
-    destruct (lookup a (names st)); [|apply good_refl].
-    destruct (lookup b (names st)); [apply good_refl|].
-    destruct (post_sync s None (rename_box a b st)) as [st' p] eqn:E. cbn [fst].
-    replace st' with (fst (post_sync s None (rename_box a b st))) by (rewrite E; reflexivity).
-    eapply good_trans; [apply rename_box_good|]. apply good_same_boxes, boxes_post_sync.
+    destruct (in_tree st a && negb (in_tree st b)); [|apply good_refl].
+    match goal with |- context [if ?c then _ else _] => destruct c end.
+    + apply rename_tree_good.
+    + destruct (post_sync s None (rename_tree a b st)) as [st' p] eqn:E. cbn [fst].
+      replace st' with (fst (post_sync s None (rename_tree a b st))) by (rewrite E; reflexivity).
+      eapply good_trans; [apply rename_tree_good|]. apply good_same_boxes, boxes_post_sync.
   - (* Append *)
     destruct (find_box st nm) as [[i b]|]; [|apply good_refl].
+    destruct (box_ro st i); [apply good_refl|].
     destruct (pick_ok st s i (c_pick ch)); [|apply good_refl].
     pose proof (append_loop_good i (c_pick ch) ms st) as G.
     destruct (append_loop i (c_pick ch) ms st) as [st1 us]. cbn [fst] in G.
@@ -325,24 +352,25 @@ Proof.
     destruct (lookup s (sess st)) as [sl|]; [|apply good_refl].
     destruct (s_ro sl); [apply good_same_boxes; reflexivity|].
     destruct (find_box st (s_name sl)) as [[i b]|]; [|apply good_same_boxes; reflexivity].
-    destruct (i =? s_bid sl); [|apply good_refl].
+    destruct (i =? s_bid sl); [|apply good_same_boxes; reflexivity].
     cbn [fst]. eapply good_trans; [apply remove_msgs_good|]. apply good_same_boxes. reflexivity.
   - (* Logout *) apply good_same_boxes. reflexivity.
   - (* Noop *)
-    destruct (resolve st s) as [| | |sl i b]; try apply good_refl.
+    destruct (resolve st s) as [| |sl i b]; try apply good_refl.
     destruct (do_sync s sl b st) as [st' p] eqn:E. cbn [fst].
     replace st' with (fst (do_sync s sl b st)) by (rewrite E; reflexivity).
     apply good_same_boxes, boxes_do_sync.
   - (* Expunge *)
-    destruct (resolve st s) as [| | |sl i b]; try apply good_refl.
+    destruct (resolve st s) as [| |sl i b]; try apply good_refl.
     destruct (s_ro sl); [apply good_refl|].
     match goal with |- context [resync s ?X] =>
       destruct (resync s X) as [st2 p] eqn:E; cbn [fst];
       replace st2 with (fst (resync s X)) by (rewrite E; reflexivity);
       eapply good_trans; [apply remove_msgs_good|]; apply good_same_boxes, boxes_resync end.
   - (* Copy *)
-    destruct (resolve st s) as [| | |sl i b]; try apply good_refl.
+    destruct (resolve st s) as [| |sl i b]; try apply good_refl.
     destruct (find_box st nm) as [[j bj]|]; [|apply good_refl].
+    destruct (box_ro st j); [apply good_refl|].
     destruct (pick_ok st s j (c_pick ch)); [|apply good_refl].
     match goal with |- context [copy_loop false i j ?c ?us st] =>
       pose proof (copy_loop_good false i j c us st) as G;
@@ -352,9 +380,9 @@ Proof.
     replace st2 with (fst (resync s st1)) by (rewrite E; reflexivity).
     eapply good_trans; [exact G|]. apply good_same_boxes, boxes_resync.
   - (* Move *)
-    destruct (resolve st s) as [| | |sl i b]; try apply good_refl.
+    destruct (resolve st s) as [| |sl i b]; try apply good_refl.
     destruct (find_box st nm) as [[j bj]|]; [|apply good_refl].
-    destruct (s_ro sl); [apply good_refl|].
+    destruct (s_ro sl || box_ro st j); [apply good_refl|].
     destruct (pick_ok st s j (c_pick ch)); [|apply good_refl].
     match goal with |- context [copy_loop true i j ?c ?us st] =>
       pose proof (copy_loop_good true i j c us st) as G;
@@ -369,20 +397,35 @@ Proof.
     replace st1 with (fst (post_sync s (Some i) st)) by (rewrite E; reflexivity).
     apply good_same_boxes, boxes_post_sync.
   - (* Fetch *)
-    destruct (resolve st s) as [| | |sl i b]; try apply good_refl.
+    destruct (resolve st s) as [| |sl i b]; try apply good_refl.
     destruct (do_sync s sl b st) as [st1 p] eqn:E.
     assert (G : good st st1).
     { replace st1 with (fst (do_sync s sl b st)) by (rewrite E; reflexivity).
       apply good_same_boxes, boxes_do_sync. }
     destruct (lookup s (sess st1)); exact G.
   - (* Store *)
-    destruct (resolve st s) as [| | |sl i b]; try apply good_refl.
+    destruct (resolve st s) as [| |sl i b]; try apply good_refl.
     destruct (do_sync s sl b st) as [st1 p] eqn:E.
     assert (G : good st st1).
     { replace st1 with (fst (do_sync s sl b st)) by (rewrite E; reflexivity).
       apply good_same_boxes, boxes_do_sync. }
     destruct (s_ro sl); cbn [fst]; [exact G|].
     eapply good_trans; [exact G|]. apply map_msgs_good. intro m. apply apply_store_keeps.
+  - (* Idle *) destruct (lookup s (sess st)); apply good_refl.
+  - (* IdleWake *)
+    destruct (resolve st s) as [| |sl i b]; try apply good_refl.
+    destruct (do_sync s sl b st) as [st' p] eqn:E. cbn [fst].
+    replace st' with (fst (do_sync s sl b st)) by (rewrite E; reflexivity).
+    apply good_same_boxes, boxes_do_sync.
+  - (* Done *)
+    destruct (resolve st s) as [| |sl i b]; try apply good_refl.
+    destruct (do_sync s sl b st) as [st' p] eqn:E. cbn [fst].
+    replace st' with (fst (do_sync s sl b st)) by (rewrite E; reflexivity).
+    apply good_same_boxes, boxes_do_sync.
+  - (* MakeRo *)
+    destruct (find_box st nm) as [[i b]|]; [|apply good_refl]. apply good_same_boxes. reflexivity.
+  - (* Adopt *)
+    destruct (find_box st nm) as [[i b]|]; [|apply good_refl]. apply adopt_loop_good.
 Qed.
 
 Lemma run_good tr : forall st, good st (run st tr).
